@@ -64,6 +64,7 @@ ALL = [
                                                  extra={'docProps/core.xml': '<cp:coreProperties xmlns:cp="http://schemas.openxmlformats.org/package/2006/metadata/core-properties" xmlns:dc="http://purl.org/dc/elements/1.1/"><!-- c --><dc:title>T</dc:title></cp:coreProperties>'})),
     ('P17-part-related-twice', ['C16'], lambda: docx(p(r('«1»body')), docrels=[('rId2', 'header', 'h.xml'), ('rId3', 'header', 'h.xml')], extra={'word/h.xml': f'<w:hdr {NS}>' + p(r('«2»head')) + '</w:hdr>'})),
     ('P17b-part-related-under-two-types', ['C16'], lambda: docx(p(r('«1»body')), docrels=[('rId2', 'http://example.com/relationships/pageTemplate', 'h.xml'), ('rId3', 'header', 'h.xml')], extra={'word/h.xml': f'<w:hdr {NS}>' + p(r('«2»head')) + '</w:hdr>'})),
+    ('P29-cell-without-paragraph-after-text-cell', ['C02', 'C13', 'C01'], lambda: docx(tbl(tr(tc(p(r('«1»top'))), tc(p(r('«2»x')))), tr(tc(p(r('«3»keep me'))), tc('<w:altChunk r:id="rId50"/>', pr='<w:vMerge/><w:gridSpan w:val="2"/>'))))),
     ('plain-two-tables', ['C01', 'C02', 'C03', 'C05', 'C19', 'C13'], lambda: docx(p(r('«1»a')) + tbl(tr(tc(p(r('«2»b'))), tc(p(r('«3»c'))))) + p(r('«4»d')) + tbl(tr(tc(p(r('«5»e'))))))),
 ]
 
